@@ -46,6 +46,7 @@ def frame_cases(draw):
     # data and keys afterwards
     iface = draw(st.sampled_from(['assign', 'assign', 'assign', 'drop', 'mask', 'masked_array', 'astype', 'relabel', 'rename', 'insert', 'assign_bloc']))
     route = draw(st.sampled_from(['iloc', 'loc', 'getitem']))
+    go = draw(st.integers(0, 3)) == 3  # a grow-only source one time in four
     ch = {'vk': draw(st.sampled_from(['element', 'element', 'array', 'series', 'frame', 'frame', 'apply'])),
           'el': draw(st.sampled_from(sorted(NEWVAL))), 'vdt': draw(st.sampled_from(['int64', 'float64', '<U2', 'bool', 'object'])),
           'fill': draw(st.sampled_from([None, 'default', -1, 'ff'])), 'keep': draw(st.integers(0, 2 ** 12)),
@@ -59,7 +60,7 @@ def frame_cases(draw):
     rec = draw(gen.frame_recipe(min_rows=1, max_rows=5, min_cols=1, max_cols=6, kinds=KINDS,
                                 index_kinds=('auto', 'int', 'str', 'date'), column_kinds=('auto', 'int', 'str')))
     n, m = len(rec['index']['labels']), len(rec['columns']['labels'])
-    case = {'rec': rec, 'iface': iface, 'route': route}
+    case = {'rec': rec, 'iface': iface, 'route': route, 'go': go}
     if iface == 'assign':
         vk = ch['vk']
         case['vk'] = vk
@@ -127,7 +128,7 @@ def _key_for_route(route, axis_labels, key, pos, scalar):
 
 def check_frame(case):
     rec = case['rec']
-    f = gen.build_frame(rec)
+    f = gen.build_frame(rec, sf.FrameGO if case.get('go') else None)
     snap0 = obs.snap(f)
     cols = gen.block_columns(rec['blocks'])
     model = [arr_list(c) for c in cols]
@@ -470,6 +471,24 @@ def check_frame(case):
             raise Failure('name', 'rename(index=%r): index name %r' % (case['iname'], r.index.name))
     if iface == 'mask' and not eq(obs.canon_name(r.name), canon(name_expect)):
         raise Failure('name', '%s: expected name %r got %r' % (iface, name_expect, r.name))
+    if case.get('go') and isinstance(r, sf.FrameGO) and r is not f and r.columns.depth == 1:
+        # the source was grow-only: the result must not share growable state with it (neither direction)
+        fresh = ['__g1__', '__g2__'] if rec['columns']['kind'] == 'str' else [90001, 90002]
+        if not any(eq(canon(x), fresh[0]) or eq(canon(x), fresh[1]) for x in list(r.columns) + list(f.columns)):
+            g1 = lib(r.__setitem__, fresh[0], 0)
+            if isinstance(g1, Raised):
+                raise Failure('raised:%s' % g1.cls, 'growing the result of %s raised %r' % (iface, g1.exc), g1.where)
+            sf_after = lib(obs.snap, f)
+            if isinstance(sf_after, Raised) or sf_after != snap0:
+                raise Failure('mutated', 'growing the result of %s changed the container it was called on: columns %s' % (iface, short(list(f.columns))))
+            rs = obs.snap(r)
+            g2 = lib(f.__setitem__, fresh[1], 1)
+            if isinstance(g2, Raised):
+                raise Failure('raised:%s' % g2.cls, 'growing the source after %s raised %r' % (iface, g2.exc), g2.where)
+            rs2 = lib(obs.snap, r)
+            if isinstance(rs2, Raised) or rs2 != rs:
+                raise Failure('mutated', 'growing the source after %s changed the result: columns %s' % (iface, short(list(r.columns))))
+            classes.append('go-growth-checked')
     bounds = gen.block_bounds(rec['blocks'])
     nt = 0 < addressed_cells < max(n * m, 2) and (len(rec['blocks']) >= 2 or any(b.ndim == 2 and b.shape[1] >= 2 for b in rec['blocks']))
     return {'nt': bool(nt), 'cls': classes}
